@@ -179,7 +179,7 @@ type Case struct {
 	NoDialFunc bool    `json:"noDialFunc,omitempty"`      // no DialFunc in the options: the library dials itself with the caller\'s options (reduced scenario, see RunDefaultDialer)
 	ExtClose   int     `json:"extClose,omitempty"`        // >0: right before Close the application itself closes the connection of one endpoint (the one with this index among the open pools) that it had handed out through its DialFunc
 	LateAppend bool    `json:"lateAppend,omitempty"`      // the caller passes its dial options as a slice with spare capacity and appends more options to that slice after the constructor returned
-	Stale      int     `json:"staleMonitor,omitempty"`    // >0: reduced scenario RunStaleMonitor (remove an endpoint, add it again, the old pool\'s monitor reports late); the value selects the endpoints
+	Stale      int     `json:"staleMonitor,omitempty"`    // >0: reduced scenario RunStaleMonitor; 1-4: remove an endpoint, add it again, the old pool's monitor reports late; 5-8: an update with kept pools whose own state report is held while the endpoint goes down; the value selects the endpoints
 	Init       Options `json:"init"`
 	Ops        []Op    `json:"ops"`
 	Failure    *Fail   `json:"failure,omitempty"`
@@ -1349,6 +1349,20 @@ func RunDefaultDialer(c *Case, props map[string]bool) (res Result) {
 // more (C15: "pools of endpoints no longer mentioned are closed and their monitors stopped", "routing ... follows").
 // Needs the verbose logger (hx.Verbose()) and a library that logs state changes; otherwise it only checks the
 // remove / re-add sequence itself.
+// goid: id of the calling goroutine.
+func goid() uint64 {
+	var buf [64]byte
+	n := runtime.Stack(buf[:], false)
+	var id uint64
+	for _, ch := range buf[len("goroutine "):n] {
+		if ch < '0' || ch > '9' {
+			break
+		}
+		id = id*10 + uint64(ch-'0')
+	}
+	return id
+}
+
 func RunStaleMonitor(c *Case, props map[string]bool) (res Result) {
 	w := &world{props: props, labels: map[string]int{}, dialed: map[string][]*grpc.ClientConn{}, up: map[string]bool{}, mes: map[string][]string{}}
 	res.Labels = w.labels
@@ -1419,6 +1433,52 @@ func RunStaleMonitor(c *Case, props map[string]bool) (res Result) {
 	follow("create", E)
 	blocked := make(chan struct{}, 1)
 	var once sync.Once
+	if c.Stale > 4 {
+		// variant: the UPDATE itself reports the state of the kept pools. If it does so through the monitors' reporting path
+		// (which logs), the updating goroutine is held there with the state it has read, the endpoint goes down, routing
+		// moves away, and then the updater is released: its old reading must not win
+		var updater atomic.Uint64
+		hook := func(msg string) {
+			if goid() == updater.Load() && strings.Contains(msg, "endpoint state changed to READY") && strings.Contains(msg, fmt.Sprintf("%q", E)) {
+				held := false
+				once.Do(func() { held = true })
+				if held {
+					blocked <- struct{}{}
+					<-release
+				}
+			}
+		}
+		hx.LogHook.Store(&hook)
+		udone := make(chan error, 1)
+		go func() {
+			updater.Store(goid())
+			udone <- gme.UpdateMultiEndpoints(mk(E, F))
+		}()
+		select {
+		case <-blocked:
+			w.labels["updater-held-with-the-state-it-has-read"]++
+			all[E].set(false)
+			w.up[E] = false
+			follow("endpoint down while an update is reporting", F)
+			letGo()
+		case err := <-udone:
+			udone <- err
+			w.labels["updater-reports-under-its-lock-nothing-to-hold"]++
+		case <-time.After(2 * time.Second):
+			w.labels["updater-not-observed"]++
+		}
+		if err := <-udone; err != nil {
+			w.fail("C15", "update-rejected", "valid update rejected: %v", err)
+		}
+		time.Sleep(time.Duration(20+c.MinSize*10) * time.Millisecond)
+		want := E
+		if !w.up[E] {
+			want = F
+		}
+		follow("after the update returned", want)
+		w.labels["update-with-kept-pools"]++
+		return
+	}
 	hook := func(msg string) {
 		if strings.Contains(msg, "endpoint state changed to SHUTDOWN") && strings.Contains(msg, fmt.Sprintf("%q", E)) {
 			held := false
